@@ -492,4 +492,628 @@ theorem hMatrix_matvec_vert (v : Vert K) (T : List K) (κ : K) (D : List V) (n :
     (vert_ctc_length v n hb) (vert_ctc_lv v n hb h2) h2
 
 end vert
+
+/-! ## nodal fields: a commutative `K`-algebra -/
+section nodal
+variable {K N : Type} [Field K] [CommRing N] [Algebra K N]
+
+theorem constN_eq (c : K) : (constN c : N) = algebraMap K N c := by
+  rw [constN, Algebra.algebraMap_eq_smul_one]
+
+theorem constN_mul (c : K) (x : N) : (constN c : N) * x = c • x := by
+  rw [constN, smul_mul_assoc, one_mul]
+
+theorem mul_constN (c : K) (x : N) : x * (constN c : N) = c • x := by
+  rw [mul_comm, constN_mul]
+
+@[simp] theorem constN_zero : (constN (0 : K) : N) = 0 := by simp [constN]
+
+theorem lv_mul (x y : List N) (i : ℕ) : lv (Col.mul x y) i = lv x i * lv y i := by
+  unfold Col.mul
+  exact lv_zipWith_zero _ (fun b => zero_mul b) (fun a => mul_zero a) x y i
+
+theorem centeredAdvection_length (ctc : List K) (w x : List N) (n : ℕ) (hn : 0 < n)
+    (hc : ctc.length = n - 1) (hw : w.length = n - 1) (hx : x.length = n) :
+    (Col.centeredAdvection ctc w x).length = n := by
+  simp [Col.centeredAdvection, Col.mul, hc, hw, hx]; omega
+
+theorem advScalar_length {V : Type} [AddCommGroup V] [Module K V] (ctc : List K) (w : List V)
+    (T : List K) (n : ℕ) (hn : 0 < n)
+    (hc : ctc.length = n - 1) (hw : w.length = n - 1) (hT : T.length = n) :
+    (advScalar ctc w T).length = n := by
+  simp [advScalar, hc, hw, hT]; omega
+
+theorem lv_centeredAdvection (ctc : List K) (w x : List N) (n : ℕ) (hc : ctc.length = n - 1)
+    (hw : w.length = n - 1) (hx : x.length = n) (i : ℕ) (hi : i < n) :
+    lv (Col.centeredAdvection ctc w x) i
+      = (-(1 / (1 + 1)) : K) • (lv w i * lv (Col.centeredDifference ctc x) i
+          + lv ((0 : N) :: w) i * lv ((0 : N) :: Col.centeredDifference ctc x) i) := by
+  unfold Col.centeredAdvection
+  have hcd : (Col.centeredDifference ctc x).length = n - 1 := by simp [hc, hx]
+  simp only []
+  rw [lv_zipWith _ _ _ (by simp [Col.mul, hw, hcd]; omega) (by simp [Col.mul, hw, hcd]; omega), lv_tail]
+  rw [lv_mul, lv_mul]
+  simp only [lv_cons_succ, lv_append_zero]
+  congr 2
+  cases i with
+  | zero => simp
+  | succ i => simp [lv_append_zero]
+
+
+/-! ### linearity of the column routines, level by level -/
+
+theorem cumF_add {V : Type} [AddCommGroup V] [Module K V] (ds : List K) (g1 g2 : List V)
+    (h : g1.length = g2.length) (i : ℕ) :
+    cumF ds (Col.add g1 g2) i = cumF ds g1 i + cumF ds g2 i := by
+  simp only [cumF, lv_add _ _ h, smul_add, Finset.sum_add_distrib]
+
+theorem lv_sigmaDot_add {V : Type} [AddCommGroup V] [Module K V] (ds : List K) (g1 g2 : List V) (n : ℕ)
+    (hds : ds.length = n) (h1 : g1.length = n) (h2 : g2.length = n) (j : ℕ) :
+    lv (sigmaDotOf ds (Col.cumSigmaIntegral ds (Col.add g1 g2))) j
+      = lv (sigmaDotOf ds (Col.cumSigmaIntegral ds g1)) j
+        + lv (sigmaDotOf ds (Col.cumSigmaIntegral ds g2)) j := by
+  have h12 : (Col.add g1 g2).length = n := by simp [Col.add, h1, h2]
+  rw [lv_sigmaDotOf ds _ n hds (by simp [hds, h12]), lv_sigmaDotOf ds _ n hds (by simp [hds, h1]),
+    lv_sigmaDotOf ds _ n hds (by simp [hds, h2])]
+  by_cases h : j + 1 < n
+  · simp only [if_pos h, lv_cumSigmaIntegral ds _ n hds h12, lv_cumSigmaIntegral ds _ n hds h1,
+      lv_cumSigmaIntegral ds _ n hds h2, if_pos (show n - 1 < n by omega), if_pos (show j < n by omega),
+      cumF_add ds g1 g2 (by omega)]
+    module
+  · simp [if_neg h]
+
+/-- the shifted reading `lv (0 :: wmul al F) i` (level `i-1`, zero at the top) is additive -/
+theorem prevF_add {V : Type} [AddCommGroup V] [Module K V] (ds al : List K) (g1 g2 : List V) (n : ℕ)
+    (hds : ds.length = n) (h1 : g1.length = n) (h2 : g2.length = n) (i : ℕ) (hi : i < n) :
+    lv ((0 : V) :: Col.wmul al (Col.cumSigmaIntegral ds (Col.add g1 g2))) i
+      = lv ((0 : V) :: Col.wmul al (Col.cumSigmaIntegral ds g1)) i
+        + lv ((0 : V) :: Col.wmul al (Col.cumSigmaIntegral ds g2)) i := by
+  have h12 : (Col.add g1 g2).length = n := by simp [Col.add, h1, h2]
+  cases i with
+  | zero => simp
+  | succ i =>
+    simp only [lv_cons_succ, lv_wmul, lv_cumSigmaIntegral ds _ n hds h12,
+      lv_cumSigmaIntegral ds _ n hds h1, lv_cumSigmaIntegral ds _ n hds h2,
+      if_pos (show i < n by omega), cumF_add ds g1 g2 (by omega)]
+    module
+
+theorem lv_gPart_add {V : Type} [AddCommGroup V] [Module K V] (ds al : List K) (g1 g2 : List V) (n : ℕ)
+    (hds : ds.length = n) (hal : al.length = n) (h1 : g1.length = n) (h2 : g2.length = n)
+    (i : ℕ) (hi : i < n) :
+    lv (gPart ds al (Col.add g1 g2)) i = lv (gPart ds al g1) i + lv (gPart ds al g2) i := by
+  have h12 : (Col.add g1 g2).length = n := by simp [Col.add, h1, h2]
+  rw [lv_gPart ds al _ n hds hal h12 i hi, lv_gPart ds al _ n hds hal h1 i hi,
+    lv_gPart ds al _ n hds hal h2 i hi, prevF_add ds al g1 g2 n hds h1 h2 i hi,
+    cumF_add ds g1 g2 (by omega)]
+  module
+
+/-- centred difference of `x + dT•1` -/
+theorem lv_cd_shift (ctc : List K) (x : List N) (dT : List K) (n : ℕ) (hc : ctc.length = n - 1)
+    (hx : x.length = n) (hd : dT.length = n) (j : ℕ) :
+    lv (Col.centeredDifference ctc (List.zipWith (fun t (d : K) => t + d • (1 : N)) x dT)) j
+      = lv (Col.centeredDifference ctc x) j + lv (Col.centeredDifference ctc dT) j • (1 : N) := by
+  have hx2 : (List.zipWith (fun t (d : K) => t + d • (1 : N)) x dT).length = n := by simp [hx, hd]
+  rw [lv_centeredDifference ctc _ n hc hx2, lv_centeredDifference ctc x n hc hx,
+    lv_centeredDifference ctc dT n hc hd]
+  by_cases h : j + 1 < n
+  · simp only [if_pos h]
+    rw [lv_zipWith _ _ _ (by omega) (by omega), lv_zipWith _ _ _ (by omega) (by omega)]
+    simp only [smul_eq_mul]
+    module
+  · simp [if_neg h]
+
+theorem lv_cons_cd_shift (ctc : List K) (x : List N) (dT : List K) (n : ℕ) (hc : ctc.length = n - 1)
+    (hx : x.length = n) (hd : dT.length = n) (j : ℕ) :
+    lv ((0 : N) :: Col.centeredDifference ctc (List.zipWith (fun t (d : K) => t + d • (1 : N)) x dT)) j
+      = lv ((0 : N) :: Col.centeredDifference ctc x) j
+        + lv ((0 : K) :: Col.centeredDifference ctc dT) j • (1 : N) := by
+  cases j with
+  | zero => simp
+  | succ j => simp only [lv_cons_succ]; exact lv_cd_shift ctc x dT n hc hx hd j
+
+/-- (i) advection of `x + dT•1` = advection of `x` + advection of the scalar profile `dT` -/
+theorem lv_adv_shift (ctc : List K) (w x : List N) (dT : List K) (n : ℕ) (hc : ctc.length = n - 1)
+    (hw : w.length = n - 1) (hx : x.length = n) (hd : dT.length = n) (i : ℕ) (hi : i < n) :
+    lv (Col.centeredAdvection ctc w (List.zipWith (fun t (d : K) => t + d • (1 : N)) x dT)) i
+      = lv (Col.centeredAdvection ctc w x) i + lv (advScalar ctc w dT) i := by
+  have hx2 : (List.zipWith (fun t (d : K) => t + d • (1 : N)) x dT).length = n := by simp [hx, hd]
+  rw [lv_centeredAdvection ctc w _ n hc hw hx2 i hi, lv_centeredAdvection ctc w x n hc hw hx i hi,
+    lv_advScalar ctc w dT n hc hw hd i hi, lv_cd_shift ctc x dT n hc hx hd,
+    lv_cons_cd_shift ctc x dT n hc hx hd]
+  simp only [mul_add, mul_smul_comm, mul_one]
+  module
+
+/-- advection of a constant-in-the-horizontal profile by the nodal routine is `advScalar` -/
+theorem lv_adv_const (ctc : List K) (w : List N) (T : List K) (n : ℕ) (hc : ctc.length = n - 1)
+    (hw : w.length = n - 1) (hT : T.length = n) (i : ℕ) (hi : i < n) :
+    lv (Col.centeredAdvection ctc w (T.map (constN : K → N))) i = lv (advScalar ctc w T) i := by
+  have h0 : (T.map (constN : K → N)) = List.zipWith (fun t (d : K) => t + d • (1 : N))
+      (T.map fun _ => (0 : N)) T := by
+    apply List.ext_getElem
+    · simp
+    · intro j h1 h2
+      simp [constN]
+  have hz : ∀ j, lv (Col.centeredDifference ctc (T.map fun _ => (0 : N))) j = 0 := by
+    intro j
+    rw [lv_centeredDifference ctc _ n hc (by simp [hT])]
+    by_cases h : j + 1 < n
+    · rw [if_pos h, lv_map _ _ (by omega), lv_map _ _ (by omega)]; simp
+    · rw [if_neg h]
+  rw [h0, lv_adv_shift ctc w _ T n hc hw (by simp [hT]) hT i hi,
+    lv_centeredAdvection ctc w _ n hc hw (by simp [hT]) i hi]
+  have hz' : lv ((0 : N) :: Col.centeredDifference ctc (T.map fun _ => (0 : N))) i = 0 := by
+    cases i with
+    | zero => simp
+    | succ i => simp only [lv_cons_succ]; exact hz i
+  rw [hz, hz']
+  simp
+
+/-- (ii) `advScalar` is additive in the profile -/
+theorem lv_advScalar_sub {V : Type} [AddCommGroup V] [Module K V] (ctc : List K) (w : List V)
+    (T dT : List K) (n : ℕ) (hc : ctc.length = n - 1)
+    (hw : w.length = n - 1) (hT : T.length = n) (hd : dT.length = n) (i : ℕ) (hi : i < n) :
+    lv (advScalar ctc w (Col.sub T dT)) i = lv (advScalar ctc w T) i - lv (advScalar ctc w dT) i := by
+  have hs : (Col.sub T dT).length = n := by simp [Col.sub, hT, hd]
+  have hcd : ∀ j, lv (Col.centeredDifference ctc (Col.sub T dT)) j
+      = lv (Col.centeredDifference ctc T) j - lv (Col.centeredDifference ctc dT) j := by
+    intro j
+    rw [lv_centeredDifference ctc _ n hc hs, lv_centeredDifference ctc T n hc hT,
+      lv_centeredDifference ctc dT n hc hd]
+    by_cases h : j + 1 < n
+    · simp only [if_pos h, lv_sub T dT (by omega), smul_eq_mul]; ring
+    · simp [if_neg h]
+  have hcd' : ∀ j, lv ((0 : K) :: Col.centeredDifference ctc (Col.sub T dT)) j
+      = lv ((0 : K) :: Col.centeredDifference ctc T) j - lv ((0 : K) :: Col.centeredDifference ctc dT) j := by
+    intro j
+    cases j with
+    | zero => simp
+    | succ j => simp only [lv_cons_succ]; exact hcd j
+  rw [lv_advScalar ctc w _ n hc hw hs i hi, lv_advScalar ctc w T n hc hw hT i hi,
+    lv_advScalar ctc w dT n hc hw hd i hi, hcd, hcd']
+  module
+
+/-- (iii) `advScalar` is additive in the velocity -/
+theorem lv_advScalar_add_w {V : Type} [AddCommGroup V] [Module K V] (ctc : List K) (w w1 w2 : List V)
+    (T : List K) (n : ℕ) (hc : ctc.length = n - 1)
+    (hw : w.length = n - 1) (hw1 : w1.length = n - 1) (hw2 : w2.length = n - 1) (hT : T.length = n)
+    (h : ∀ j, lv w j = lv w1 j + lv w2 j) (i : ℕ) (hi : i < n) :
+    lv (advScalar ctc w T) i = lv (advScalar ctc w1 T) i + lv (advScalar ctc w2 T) i := by
+  have h' : ∀ j, lv ((0 : V) :: w) j = lv ((0 : V) :: w1) j + lv ((0 : V) :: w2) j := by
+    intro j
+    cases j with
+    | zero => simp
+    | succ j => simp only [lv_cons_succ]; exact h j
+  rw [lv_advScalar ctc w T n hc hw hT i hi, lv_advScalar ctc w1 T n hc hw1 hT i hi,
+    lv_advScalar ctc w2 T n hc hw2 hT i hi, h, h']
+  module
+
+end nodal
+
+/-! ## the temperature equation under a shift of the reference profile -/
+section thermo
+set_option linter.unusedSectionVars false
+variable {K M N : Type} [Field K] [DecidableEq K] [AddCommGroup M] [Module K M] [CommRing N] [Algebra K N]
+
+/-- the same equations with another reference profile -/
+def withTRef (eq : PrimitiveEquations K M N) (T : List K) : PrimitiveEquations K M N :=
+  { eq with referenceTemperature := T }
+
+/-- the same nodal diagnostics with another temperature column -/
+def Diag.withT (aux : Diag N) (t : List N) : Diag N := { aux with temperatureVariation := t }
+
+/-- `nT + dT•1`, level by level -/
+def shiftN (x : List N) (dT : List K) : List N := List.zipWith (fun t (d : K) => t + d • (1 : N)) x dT
+
+/-- shapes of a diagnostic state with `n` layers -/
+structure DiagShaped (eq : PrimitiveEquations K M N) (aux : Diag N) (n : ℕ) : Prop where
+  pos : 0 < n
+  ds : eq.vert.ds.length = n
+  al : eq.vert.alpha.length = n
+  ctc : eq.vert.ctc.length = n - 1
+  tr : eq.referenceTemperature.length = n
+  z : aux.vorticity.length = n
+  d : aux.divergence.length = n
+  t : aux.temperatureVariation.length = n
+  u : aux.cosLatU.1.length = n
+  v : aux.cosLatU.2.length = n
+  g : aux.uDotGradLogSp.length = n
+  sde : aux.sigmaDotExplicit = sigmaDotOf eq.vert.ds (Col.cumSigmaIntegral eq.vert.ds aux.uDotGradLogSp)
+  sdf : aux.sigmaDotFull = sigmaDotOf eq.vert.ds
+          (Col.cumSigmaIntegral eq.vert.ds (Col.add aux.divergence aux.uDotGradLogSp))
+
+theorem tRef_const (eq : PrimitiveEquations K M N) (h : eq.tRefVaries = false) (i j : ℕ)
+    (hi : i < eq.referenceTemperature.length) (hj : j < eq.referenceTemperature.length) :
+    lv eq.referenceTemperature i = lv eq.referenceTemperature j := by
+  unfold PrimitiveEquations.tRefVaries at h
+  generalize eq.referenceTemperature = T at *
+  cases T with
+  | nil => simp at hi
+  | cons a t =>
+    simp only [List.any_eq_false] at h
+    have key : ∀ k, k < (a :: t).length → lv (a :: t) k = a := by
+      intro k hk
+      cases k with
+      | zero => simp
+      | succ k =>
+        simp only [lv_cons_succ]
+        have hk' : k < t.length := by simpa using hk
+        have : lv t k = t[k] := by simp [lv_def, List.getElem?_eq_getElem hk']
+        rw [this]
+        have := h _ (List.getElem_mem hk')
+        simpa using this
+    rw [key i hi, key j hj]
+
+
+omit [DecidableEq K] in
+theorem lv_advScalar_const {V : Type} [AddCommGroup V] [Module K V] (ctc : List K) (w : List V)
+    (T : List K) (n : ℕ) (hc : ctc.length = n - 1) (hw : w.length = n - 1) (hT : T.length = n)
+    (hconst : ∀ i j, i < n → j < n → lv T i = lv T j) (i : ℕ) (hi : i < n) :
+    lv (advScalar ctc w T) i = 0 := by
+  have hcd : ∀ j, lv (Col.centeredDifference ctc T) j = 0 := by
+    intro j
+    rw [lv_centeredDifference ctc T n hc hT]
+    by_cases h : j + 1 < n
+    · rw [if_pos h, hconst (j + 1) j h (by omega)]; simp
+    · rw [if_neg h]
+  have hcd' : lv ((0 : K) :: Col.centeredDifference ctc T) i = 0 := by
+    cases i with
+    | zero => simp
+    | succ i => simp only [lv_cons_succ]; exact hcd i
+  rw [lv_advScalar ctc w T n hc hw hT i hi, hcd, hcd']
+  simp
+
+omit [DecidableEq K] in
+theorem tOmega_eq (eq : PrimitiveEquations K M N) (T g v : List N) :
+    eq.tOmegaOverSigmaSp T g v = Col.mul T (Col.sub v (gPart eq.vert.ds eq.vert.alpha g)) := rfl
+
+theorem DiagShaped.sde_len {eq : PrimitiveEquations K M N} {aux : Diag N} {n : ℕ}
+    (S : DiagShaped eq aux n) : aux.sigmaDotExplicit.length = n - 1 := by
+  rw [S.sde]; exact sigmaDotOf_length _ _ n S.ds (by simp [S.ds, S.g])
+
+theorem DiagShaped.sdf_len {eq : PrimitiveEquations K M N} {aux : Diag N} {n : ℕ}
+    (S : DiagShaped eq aux n) : aux.sigmaDotFull.length = n - 1 := by
+  rw [S.sdf]; exact sigmaDotOf_length _ _ n S.ds (by simp [S.ds, S.g, S.d, Col.add])
+
+/-- the vertical temperature tendency, with the `T_ref`-is-constant guard resolved -/
+theorem lv_vertTend (eq : PrimitiveEquations K M N) (aux : Diag N) (n : ℕ) (S : DiagShaped eq aux n)
+    (hinc : eq.includeVerticalAdvection = true) (i : ℕ) (hi : i < n) :
+    lv (eq.nodalTemperatureVerticalTendency aux) i
+      = lv (Col.centeredAdvection eq.vert.ctc aux.sigmaDotFull aux.temperatureVariation) i
+        + lv (advScalar eq.vert.ctc aux.sigmaDotExplicit eq.referenceTemperature) i := by
+  unfold PrimitiveEquations.nodalTemperatureVerticalTendency PrimitiveEquations.verticalTendency
+  rw [hinc]
+  simp only [if_true]
+  have l1 := centeredAdvection_length eq.vert.ctc aux.sigmaDotFull aux.temperatureVariation n S.pos
+    S.ctc S.sdf_len S.t
+  by_cases hv : eq.tRefVaries = true
+  · rw [if_pos hv]
+    have l2 := centeredAdvection_length eq.vert.ctc aux.sigmaDotExplicit eq.tRef n S.pos
+      S.ctc S.sde_len (by simp [PrimitiveEquations.tRef, S.tr])
+    rw [lv_add _ _ (by rw [l1, l2]), PrimitiveEquations.tRef,
+      lv_adv_const eq.vert.ctc _ _ n S.ctc S.sde_len S.tr i hi]
+  · rw [if_neg hv]
+    have hv' : eq.tRefVaries = false := by simpa using hv
+    rw [lv_advScalar_const eq.vert.ctc _ _ n S.ctc S.sde_len S.tr
+      (fun a b ha hb => tRef_const eq hv' a b (by rw [S.tr]; exact ha) (by rw [S.tr]; exact hb)) i hi,
+      add_zero]
+
+omit [DecidableEq K] in
+/-- the dry adiabatic tendency, level by level -/
+theorem lv_adiabatic (eq : PrimitiveEquations K M N) (aux : Diag N) (n : ℕ) (S : DiagShaped eq aux n)
+    (i : ℕ) (hi : i < n) :
+    lv (eq.nodalTemperatureAdiabaticTendency aux) i
+      = eq.phys.kappa • (constN (lv eq.referenceTemperature i)
+            * (lv aux.uDotGradLogSp i - lv (gPart eq.vert.ds eq.vert.alpha aux.uDotGradLogSp) i)
+          + lv aux.temperatureVariation i
+            * (lv aux.uDotGradLogSp i - (lv (gPart eq.vert.ds eq.vert.alpha aux.uDotGradLogSp) i
+                + lv (gPart eq.vert.ds eq.vert.alpha aux.divergence) i))) := by
+  unfold PrimitiveEquations.nodalTemperatureAdiabaticTendency
+  simp only [tOmega_eq]
+  have hg1 := gPart_length eq.vert.ds eq.vert.alpha aux.uDotGradLogSp n S.ds S.al S.g
+  have hg2 := gPart_length eq.vert.ds eq.vert.alpha (Col.add aux.uDotGradLogSp aux.divergence) n S.ds S.al
+    (by simp [Col.add, S.g, S.d])
+  rw [lv_smul, lv_add _ _ (by simp [Col.mul, Col.sub, PrimitiveEquations.tRef, S.tr, S.g, S.t, hg1, hg2]),
+    lv_mul, lv_mul, lv_sub _ _ (by rw [S.g, hg1]), lv_sub _ _ (by rw [S.g, hg2]),
+    lv_gPart_add _ _ _ _ n S.ds S.al S.g S.d i hi, PrimitiveEquations.tRef,
+    lv_map_zero _ constN_zero]
+
+
+/-- the explicit formulas evaluated on a profile `dT` with `G = D` (right-hand side of T4.1) -/
+def refTerms {V : Type} [AddCommGroup V] [Module K V] (v : Vert K) (κ : K) (dT : List K) (D : List V) : List V :=
+  Col.sub (Col.smul κ (Col.wmul dT (gPart v.ds v.alpha D)))
+    (advScalar v.ctc (sigmaDotOf v.ds (Col.cumSigmaIntegral v.ds D)) dT)
+
+theorem DiagShaped.shift {eq : PrimitiveEquations K M N} {aux : Diag N} {n : ℕ}
+    (S : DiagShaped eq aux n) (dT : List K) (hd : dT.length = n) :
+    DiagShaped (withTRef eq (Col.sub eq.referenceTemperature dT))
+      (aux.withT (shiftN aux.temperatureVariation dT)) n :=
+  { pos := S.pos, ds := S.ds, al := S.al, ctc := S.ctc
+    tr := by simp [withTRef, Col.sub, S.tr, hd]
+    z := S.z, d := S.d
+    t := by simp [Diag.withT, shiftN, S.t, hd]
+    u := S.u, v := S.v, g := S.g, sde := S.sde, sdf := S.sdf }
+
+/-- **the nodal heart of C04**: shifting `T_ref → T_ref − dT`, `T' → T' + dT` changes
+ `vertical + adiabatic` tendency by exactly minus the explicit formulas evaluated on `dT` with `G = δ` -/
+theorem thermo_level (eq : PrimitiveEquations K M N) (aux : Diag N) (n : ℕ) (S : DiagShaped eq aux n)
+    (dT : List K) (hd : dT.length = n) (hinc : eq.includeVerticalAdvection = true) (i : ℕ) (hi : i < n) :
+    lv ((withTRef eq (Col.sub eq.referenceTemperature dT)).nodalTemperatureVerticalTendency
+          (aux.withT (shiftN aux.temperatureVariation dT))) i
+      + lv ((withTRef eq (Col.sub eq.referenceTemperature dT)).nodalTemperatureAdiabaticTendency
+          (aux.withT (shiftN aux.temperatureVariation dT))) i
+    = lv (eq.nodalTemperatureVerticalTendency aux) i + lv (eq.nodalTemperatureAdiabaticTendency aux) i
+      - lv (refTerms eq.vert eq.phys.kappa dT aux.divergence) i := by
+  have S2 := S.shift dT hd
+  rw [lv_vertTend _ _ n S2 hinc i hi, lv_adiabatic _ _ n S2 i hi, lv_vertTend eq aux n S hinc i hi,
+    lv_adiabatic eq aux n S i hi]
+  show lv (Col.centeredAdvection eq.vert.ctc aux.sigmaDotFull (shiftN aux.temperatureVariation dT)) i
+      + lv (advScalar eq.vert.ctc aux.sigmaDotExplicit (Col.sub eq.referenceTemperature dT)) i
+      + eq.phys.kappa • (constN (lv (Col.sub eq.referenceTemperature dT) i)
+            * (lv aux.uDotGradLogSp i - lv (gPart eq.vert.ds eq.vert.alpha aux.uDotGradLogSp) i)
+          + lv (shiftN aux.temperatureVariation dT) i
+            * (lv aux.uDotGradLogSp i - (lv (gPart eq.vert.ds eq.vert.alpha aux.uDotGradLogSp) i
+                + lv (gPart eq.vert.ds eq.vert.alpha aux.divergence) i))) = _
+  have hsdd := sigmaDotOf_length eq.vert.ds (Col.cumSigmaIntegral eq.vert.ds aux.divergence) n S.ds
+    (by simp [S.ds, S.d])
+  have hgp := gPart_length eq.vert.ds eq.vert.alpha aux.divergence n S.ds S.al S.d
+  have hw : lv (advScalar eq.vert.ctc aux.sigmaDotFull dT) i
+      = lv (advScalar eq.vert.ctc (sigmaDotOf eq.vert.ds (Col.cumSigmaIntegral eq.vert.ds aux.divergence)) dT) i
+        + lv (advScalar eq.vert.ctc aux.sigmaDotExplicit dT) i := by
+    apply lv_advScalar_add_w _ _ _ _ _ n S.ctc S.sdf_len hsdd S.sde_len hd _ i hi
+    intro j
+    rw [S.sdf, S.sde]
+    exact lv_sigmaDot_add _ _ _ n S.ds S.d S.g j
+  rw [shiftN, lv_adv_shift _ _ _ _ n S.ctc S.sdf_len S.t hd i hi, hw,
+    lv_advScalar_sub _ _ _ _ n S.ctc S.sde_len S.tr hd i hi,
+    lv_sub _ _ (by rw [S.tr, hd]), lv_zipWith _ _ _ (by rw [S.t]; exact hi) (by rw [hd]; exact hi)]
+  unfold refTerms
+  rw [lv_sub _ _ (by simp [Col.smul, hgp, hd, advScalar_length _ _ _ n S.pos S.ctc hsdd hd]),
+    lv_smul, lv_wmul]
+  simp only [constN_eq, Algebra.smul_def, map_sub, mul_one]
+  ring
+
+end thermo
+
+/-! ## linearity of the vertical mat-vec -/
+section matvec
+set_option linter.unusedSectionVars false
+variable {K : Type} [Field K] {V W : Type} [AddCommGroup V] [Module K V] [AddCommGroup W] [Module K W]
+
+theorem map_wmul_sum (f : V → W) (hf : IsLinearMap K f) (row : List K) (x : List V) :
+    f (Col.wmul row x).sum = (Col.wmul row (x.map f)).sum := by
+  unfold Col.wmul
+  induction row generalizing x with
+  | nil => simp [hf.map_zero]
+  | cons a r ih =>
+    cases x with
+    | nil => simp [hf.map_zero]
+    | cons b t =>
+      simp only [List.zipWith_cons_cons, List.sum_cons, List.map_cons, hf.map_add, hf.map_smul, ih]
+
+/-- a linear map applied level by level commutes with `_vertical_matvec` -/
+theorem map_matvec (f : V → W) (hf : IsLinearMap K f) (A : List (List K)) (x : List V) :
+    (Col.matvec A x).map f = Col.matvec A (x.map f) := by
+  unfold Col.matvec
+  rw [List.map_map]
+  apply List.map_congr_left
+  intro row _
+  exact map_wmul_sum f hf row x
+
+theorem wmul_sum_shift (row dT : List K) (x : List V) (m : V) (h : x.length = dT.length) :
+    (Col.wmul row (List.zipWith (fun t (d : K) => t + d • m) x dT)).sum
+      = (Col.wmul row x).sum + (Col.wmul row dT).sum • m := by
+  unfold Col.wmul
+  induction row generalizing x dT with
+  | nil => simp
+  | cons a r ih =>
+    match x, dT, h with
+    | [], [], _ => simp
+    | b :: t, d :: u, h =>
+      simp only [List.zipWith_cons_cons, List.sum_cons, ih u t (by simpa using h), smul_eq_mul]
+      module
+
+/-- `A·(x + dT•m) = A·x + (A·dT)•m` -/
+theorem matvec_shift (A : List (List K)) (dT : List K) (x : List V) (m : V) (h : x.length = dT.length) :
+    Col.matvec A (List.zipWith (fun t (d : K) => t + d • m) x dT)
+      = List.zipWith (fun y (c : K) => y + c • m) (Col.matvec A x) (Col.matvec A dT) := by
+  unfold Col.matvec
+  rw [List.zipWith_map_left, List.zipWith_map_right, List.zipWith_self]
+  apply List.map_congr_left
+  intro row _
+  exact wmul_sum_shift row dT x m h
+
+theorem wmul_neg_sum (row : List K) (x : List V) :
+    (Col.wmul (row.map fun v => -v) x).sum = -(Col.wmul row x).sum := by
+  unfold Col.wmul
+  induction row generalizing x with
+  | nil => simp
+  | cons a r ih =>
+    cases x with
+    | nil => simp
+    | cons b t => simp only [List.map_cons, List.zipWith_cons_cons, List.sum_cons, ih]; module
+
+theorem matvec_negMat (A : List (List K)) (x : List V) :
+    Col.matvec (Implicit.negMat A) x = Col.neg (Col.matvec A x) := by
+  unfold Col.matvec Implicit.negMat Col.neg
+  rw [List.map_map, List.map_map]
+  apply List.map_congr_left
+  intro row _
+  exact wmul_neg_sum row x
+
+theorem hEntry_sub (ds T dT al : List K) (κ : K) (h : T.length = dT.length) (r s : ℕ) :
+    Implicit.hEntry ds (Col.sub T dT) al κ r s
+      = Implicit.hEntry ds T al κ r s - Implicit.hEntry ds dT al κ r s := by
+  have e : ∀ j, (Col.sub T dT).getD j 0 = T.getD j 0 - dT.getD j 0 := fun j => lv_sub T dT h j
+  simp only [Implicit.hEntry, Implicit.hK, Implicit.hK0, e]
+  split_ifs <;> ring
+
+/-- `H` is additive in the reference profile -/
+theorem hMatrix_sub (ds T dT al : List K) (κ : K) (D : List V) (n : ℕ) (hds : ds.length = n)
+    (hD : D.length = n) (h : T.length = dT.length) :
+    Col.matvec (Implicit.hMatrix ds (Col.sub T dT) al κ) D
+      = Col.sub (Col.matvec (Implicit.hMatrix ds T al κ) D) (Col.matvec (Implicit.hMatrix ds dT al κ) D) := by
+  apply ext_lv (n := n)
+  · simp [Col.matvec, Implicit.hMatrix, hds]
+  · simp [Col.matvec, Implicit.hMatrix, Col.sub, hds]
+  intro r hr
+  rw [lv_sub _ _ (by simp [Col.matvec, Implicit.hMatrix]), lv_matvec_hMatrix _ _ _ _ _ n hds hD r hr,
+    lv_matvec_hMatrix _ _ _ _ _ n hds hD r hr, lv_matvec_hMatrix _ _ _ _ _ n hds hD r hr,
+    ← Finset.sum_sub_distrib]
+  apply Finset.sum_congr rfl
+  intro s _
+  rw [hEntry_sub _ _ _ _ _ h, sub_smul]
+
+end matvec
+
+/-! ## the named laws of the horizontal operations; the momentum equations -/
+section laws
+set_option linter.unusedSectionVars false
+variable {K M N : Type} [Field K] [AddCommGroup M] [Module K M] [CommRing N] [Algebra K N]
+
+/-- `cosθ∇p` in nodal space, as `compute_diagnostic_state` forms it (`clip=False`) -/
+def nodalGrad (h : HOps K M N) (p : M) : N × N :=
+  (h.toNodal (h.cosLatGrad false p).1, h.toNodal (h.cosLatGrad false p).2)
+
+/-- the vector `(to_modal(y·g₁·sec²θ), to_modal(y·g₂·sec²θ))` whose `curl_cos_lat`/`div_cos_lat` the
+ explicit momentum terms take (`y` = a nodal weight such as `R·T`, `g` = nodal `cosθ∇ln p_s`) -/
+def weightedGradSec2 (h : HOps K M N) (y : N) (g : N × N) : M × M :=
+  (h.toModal (y * g.1 * h.sec2Lat), h.toModal (y * g.2 * h.sec2Lat))
+
+/-- **named laws** of the horizontal operations used by C04 (dry classes).  Each is validated
+ on the real grids by `harness/props/C04.py` (quadratic, cubic and linear truncations). -/
+structure Laws (h : HOps K M N) : Prop where
+  toNodal_lin : IsLinearMap K h.toNodal
+  toModal_lin : IsLinearMap K h.toModal
+  dDlon_lin : IsLinearMap K h.dDlon
+  secLatDDlatCos2_lin : IsLinearMap K h.secLatDDlatCos2
+  laplacian_lin : IsLinearMap K h.laplacian
+  clip_lin : IsLinearMap K h.clip
+  /-- the spectral constant is the nodal one -/
+  toNodal_one : h.toNodal h.oneModal = 1
+  /-- the Laplacian kills the (0,0) mode -/
+  lap_one : h.laplacian h.oneModal = 0
+  /-- `to_modal ∘ to_nodal = id` on clipped fields -/
+  roundtrip : ∀ x, h.clip x = x → h.clip (h.toModal (h.toNodal x)) = x
+  /-- `curl(grad p) = 0` through the nodal `sec²θ` weighting (Hyp-A, curl part) -/
+  curl_grad : ∀ p, h.clip p = p → h.clip (h.curlCosLat false (weightedGradSec2 h 1 (nodalGrad h p))) = 0
+  /-- `div(grad p) = lap p` through the nodal `sec²θ` weighting (Hyp-A) -/
+  div_grad : ∀ p, h.clip p = p →
+    h.clip (h.divCosLat false (weightedGradSec2 h 1 (nodalGrad h p))) = h.laplacian p
+  /-- `div(uv(ζ, δ)) = δ` (T2.6) for clipped, zero-mean `δ` -/
+  div_uv : ∀ z d, h.clip z = z → h.clip d = d → h.laplacian (h.inverseLaplacian d) = d →
+    h.clip (h.divSecLat (h.toNodal (h.cosLatVector false z d).1) (h.toNodal (h.cosLatVector false z d).2)) = d
+
+/-- the additional laws of the moist classes: the quadrature resolves the product rule.
+ **Fails on linear (`TL`) grids** (C04.py asserts that it is only used where validated). -/
+structure MoistLaws (h : HOps K M N) : Prop where
+  /-- `div(q ∇p) = ∇q·∇p + q ∇²p` through the nodal products -/
+  product_rule_resolved : ∀ p qm, h.clip p = p → h.clip qm = qm →
+    h.clip (h.divCosLat false (weightedGradSec2 h (h.toNodal qm) (nodalGrad h p)))
+      = h.clip (h.toModal (h.sec2Lat * ((nodalGrad h qm).1 * (nodalGrad h p).1
+          + (nodalGrad h qm).2 * (nodalGrad h p).2) + h.toNodal qm * h.toNodal (h.laplacian p)))
+  /-- `curl(q ∇p) = ∇q × ∇p` through the nodal products -/
+  curl_product_rule_resolved : ∀ p qm, h.clip p = p → h.clip qm = qm →
+    h.clip (h.curlCosLat false (weightedGradSec2 h (h.toNodal qm) (nodalGrad h p)))
+      = h.clip (h.toModal (h.sec2Lat * ((nodalGrad h qm).1 * (nodalGrad h p).2
+          - (nodalGrad h qm).2 * (nodalGrad h p).1)))
+
+variable {h : HOps K M N}
+
+theorem Laws.divCosLat_add (L : Laws h) (a b : M × M) :
+    h.divCosLat false (a.1 + b.1, a.2 + b.2) = h.divCosLat false a + h.divCosLat false b := by
+  simp only [HOps.divCosLat, L.dDlon_lin.map_add, L.secLatDDlatCos2_lin.map_add]
+  simp only [Bool.false_eq_true, if_false]
+  module
+
+theorem Laws.curlCosLat_add (L : Laws h) (a b : M × M) :
+    h.curlCosLat false (a.1 + b.1, a.2 + b.2) = h.curlCosLat false a + h.curlCosLat false b := by
+  simp only [HOps.curlCosLat, L.dDlon_lin.map_add, L.secLatDDlatCos2_lin.map_add]
+  simp only [Bool.false_eq_true, if_false]
+  module
+
+theorem Laws.divCosLat_smul (L : Laws h) (c : K) (a : M × M) :
+    h.divCosLat false (c • a.1, c • a.2) = c • h.divCosLat false a := by
+  simp only [HOps.divCosLat, L.dDlon_lin.map_smul, L.secLatDDlatCos2_lin.map_smul]
+  simp only [Bool.false_eq_true, if_false]
+  module
+
+theorem Laws.curlCosLat_smul (L : Laws h) (c : K) (a : M × M) :
+    h.curlCosLat false (c • a.1, c • a.2) = c • h.curlCosLat false a := by
+  simp only [HOps.curlCosLat, L.dDlon_lin.map_smul, L.secLatDDlatCos2_lin.map_smul]
+  simp only [Bool.false_eq_true, if_false]
+  module
+
+theorem Laws.weighted_smul (L : Laws h) (c : K) (y : N) (g : N × N) :
+    weightedGradSec2 h (c • y) g = (c • (weightedGradSec2 h y g).1, c • (weightedGradSec2 h y g).2) := by
+  simp only [weightedGradSec2, smul_mul_assoc, L.toModal_lin.map_smul]
+
+theorem Laws.weighted_add (L : Laws h) (y1 y2 : N) (g : N × N) :
+    weightedGradSec2 h (y1 + y2) g
+      = ((weightedGradSec2 h y1 g).1 + (weightedGradSec2 h y2 g).1,
+         (weightedGradSec2 h y1 g).2 + (weightedGradSec2 h y2 g).2) := by
+  simp only [weightedGradSec2, add_mul, L.toModal_lin.map_add]
+
+
+/-- **momentum equations**: adding a nodal column `Y` to `R·T` (dry) / the virtual temperature (moist)
+ changes the curl/div tendencies by minus the curl/div of the `Y`-weighted pressure gradient -/
+theorem cdt_add (eq : PrimitiveEquations K M N) (aux : Diag N) (rT Y : List N) (n : ℕ)
+    (L : Laws eq.ops) (hn : 0 < n) (hz : aux.vorticity.length = n) (hu : aux.cosLatU.1.length = n)
+    (hv : aux.cosLatU.2.length = n) (hr : rT.length = n) (hY : Y.length = n)
+    (hsdf : aux.sigmaDotFull.length = n - 1) (hctc : eq.vert.ctc.length = n - 1) :
+    eq.curlAndDivTendenciesWith aux (Col.add rT Y)
+      = (List.zipWith (fun z y => z - eq.ops.curlCosLat false (weightedGradSec2 eq.ops y aux.cosLatGradLogSp))
+            (eq.curlAndDivTendenciesWith aux rT).1 Y,
+         List.zipWith (fun d y => d - eq.ops.divCosLat false (weightedGradSec2 eq.ops y aux.cosLatGradLogSp))
+            (eq.curlAndDivTendenciesWith aux rT).2 Y) := by
+  unfold PrimitiveEquations.curlAndDivTendenciesWith
+  simp only []
+  have hlU : (if eq.includeVerticalAdvection = true
+      then Col.neg (eq.verticalTendency aux.sigmaDotFull aux.cosLatU.1)
+      else Col.zerosLike aux.cosLatU.1).length = n := by
+    split_ifs
+    · simp [Col.neg, PrimitiveEquations.verticalTendency,
+        centeredAdvection_length eq.vert.ctc _ _ n hn hctc hsdf hu]
+    · simp [Col.zerosLike, hu]
+  have hlV : (if eq.includeVerticalAdvection = true
+      then Col.neg (eq.verticalTendency aux.sigmaDotFull aux.cosLatU.2)
+      else Col.zerosLike aux.cosLatU.2).length = n := by
+    split_ifs
+    · simp [Col.neg, PrimitiveEquations.verticalTendency,
+        centeredAdvection_length eq.vert.ctc _ _ n hn hctc hsdf hv]
+    · simp [Col.zerosLike, hv]
+  generalize (if eq.includeVerticalAdvection = true
+      then Col.neg (eq.verticalTendency aux.sigmaDotFull aux.cosLatU.1)
+      else Col.zerosLike aux.cosLatU.1) = sdU at hlU
+  generalize (if eq.includeVerticalAdvection = true
+      then Col.neg (eq.verticalTendency aux.sigmaDotFull aux.cosLatU.2)
+      else Col.zerosLike aux.cosLatU.2) = sdV at hlV
+  have key : ∀ (a b sd1 sd2 r y : N),
+      ((eq.ops.toModal (a + (sd1 + (r + y) * aux.cosLatGradLogSp.1) * eq.ops.sec2Lat),
+        eq.ops.toModal (b + (sd2 + (r + y) * aux.cosLatGradLogSp.2) * eq.ops.sec2Lat)) : M × M)
+      = ((eq.ops.toModal (a + (sd1 + r * aux.cosLatGradLogSp.1) * eq.ops.sec2Lat),
+          eq.ops.toModal (b + (sd2 + r * aux.cosLatGradLogSp.2) * eq.ops.sec2Lat)).1
+            + (weightedGradSec2 eq.ops y aux.cosLatGradLogSp).1,
+         (eq.ops.toModal (a + (sd1 + r * aux.cosLatGradLogSp.1) * eq.ops.sec2Lat),
+          eq.ops.toModal (b + (sd2 + r * aux.cosLatGradLogSp.2) * eq.ops.sec2Lat)).2
+            + (weightedGradSec2 eq.ops y aux.cosLatGradLogSp).2) := by
+    intro a b sd1 sd2 r y
+    simp only [weightedGradSec2, ← L.toModal_lin.map_add]
+    congr 2 <;> ring
+  refine Prod.ext ?_ ?_
+  · dsimp only
+    apply List.ext_getElem
+    · simp [Col.add, hz, hu, hv, hr, hY, hlU, hlV]
+    · intro i h1 h2
+      simp only [List.getElem_zipWith, List.getElem_map, Col.add]
+      rw [key, L.curlCosLat_add]
+      module
+  · dsimp only
+    apply List.ext_getElem
+    · simp [Col.add, hz, hu, hv, hr, hY, hlU, hlV]
+    · intro i h1 h2
+      simp only [List.getElem_zipWith, List.getElem_map, Col.add]
+      rw [key, L.divCosLat_add]
+      module
+
+end laws
 end Dino.Dynamics
